@@ -7,9 +7,9 @@ patch="$1"; shift
 cd /repo || exit 2
 if [ -n "$(git status --porcelain --untracked-files=no)" ]; then echo "run_seeded: /repo has uncommitted changes, refusing"; exit 2; fi
 if git apply --check "$patch" 2>/dev/null; then git apply "$patch"
-elif git apply -3 "$patch" 2>/dev/null; then git reset -q
+elif git apply -3 "$patch" 2>/dev/null && [ -z "$(git diff --name-only --diff-filter=U)" ]; then git reset -q
 elif patch -p1 -s -F3 --no-backup-if-mismatch < "$patch"; then :
-else echo "run_seeded: patch does not apply"; git checkout -- . ; exit 2; fi
+else echo "run_seeded: patch does not apply"; git reset -q --hard HEAD; git clean -fdq -- libvore main.go 2>/dev/null; exit 2; fi
 (cd libvore && go build ./... ) || { echo "run_seeded: does not build"; git checkout -- .; exit 2; }
 caught=1
 bk=$(mktemp -d /root/scratch/evbk.XXXX)
@@ -20,7 +20,7 @@ for p in "$@"; do
   echo "check $p exit=$rc"
   [ $rc -eq 1 ] && caught=0
 done
-git checkout -- .
+git reset -q --hard HEAD
 git clean -fdq -- libvore main.go 2>/dev/null
 # the evidence files must describe the unchanged tree: restore them
 cp "$bk"/*.json /verif/evidence/ 2>/dev/null; rm -rf "$bk"
